@@ -71,6 +71,12 @@ def gen_cases(tier):
                 add(("core", True, ("+", ("|", ("a", e1), ("a", g)), ("|", ("a", e2), ("a", g)))))
                 add(("core", True, ("-", ("+", ("|", ("a", e1), ("a", g)), ("|", ("a", e2), ("a", g))), ("|", ("a", e1), ("a", g)))))
     # literals that are equal as Python values but not the same literal: f(x, 1) / f(x, True) / f(x, 1.0), k=0 / k=False
+    for lit_atom in ("f(x, 'mid')", "f(x, k=\"two words\")", "f(x, 20.5)", "f(x, k=1000000)", "f(x, None)"):  # one call written twice is one factor, whatever literal it holds
+        for other in ("a", lit_atom):
+            add(("core", True, ("-", ("*", ("a", lit_atom), ("a", "b")), (":", ("a", lit_atom), ("a", "b")))))
+            add(("core", True, (":", ("a", lit_atom), ("a", other))))
+            add(("core", True, ("+", ("+", ("a", lit_atom), ("a", other)), ("a", lit_atom))))
+            add(("core", True, ("-", ("+", ("a", "a"), ("|", ("a", lit_atom), ("a", "g"))), ("|", ("a", lit_atom), ("a", "g")))))
     lits_eq = ["f(x, 1)", "f(x, True)", "f(x, 1.0)", "f(x, k=0)", "f(x, k=False)"]
     for n in range(1, 4):
         for t in A.trees(n, lits_eq if n < 3 else lits_eq[:2] + lits_eq[3:], OPS):
